@@ -338,7 +338,9 @@ def _check_one(p64: str, protected: dict, unprot: dict | None, payload_for_b64: 
     return (True, "", "", merged) if ok else (False, "crypto", "signature invalid", merged)
 
 
-def verify_compact(token, resolver, detached_payload: bytes | None = None, allow=None) -> Result:
+def verify_compact(token, resolver, detached_payload: bytes | None = None, allow=None, attached_urlsafe_only: bool = False) -> Result:
+    """attached_urlsafe_only: an unencoded payload that stands in the token must consist of a-z A-Z 0-9 - _ ~ (RFC 7797, 5.2: what a producer that
+    promises URL-safe compact tokens attaches; anything else it detaches)"""
     if isinstance(token, bytes):
         try:
             token = token.decode("utf-8")
@@ -370,6 +372,8 @@ def verify_compact(token, resolver, detached_payload: bytes | None = None, allow
             payload = detached_payload
         else:
             payload = pay.encode("utf-8")
+            if attached_urlsafe_only and not all(c in "abcdefghijklmnopqrstuvwxyzABCDEFGHIJKLMNOPQRSTUVWXYZ0123456789-_~" for c in pay):
+                return Result("REJECT", "attached unencoded payload holds characters that are not URL-safe (RFC 7797 5.2)", "malformed")
         seg = b""
         raw = payload
     ok, klass, reason, merged = _check_one(p64, protected, None, seg, raw, sig64, resolver, allow)
